@@ -463,3 +463,150 @@ Proof.
   intros Hk. exists (chunks_of body k).
   repeat split; [now apply chunks_of_wf|now apply to_chunks_render|now apply chunks_of_dechunk].
 Qed.
+
+(* ===================================================================================== *)
+(* header maps: the builders against their specification                                  *)
+From PM Require Import Http.ParserFacts.
+
+Definition lkeys (h : bdict) : list bytes := map (fun kv => lower (fst kv)) h.
+
+Lemma lower_header_key h name : lower (header_key h name) = lower name.
+Proof.
+  induction h as [|[k v] t IH]; cbn [header_key]; [reflexivity|].
+  destruct (bytes_eqb (lower k) (lower name)) eqn:E; [now apply bytes_eqb_eq in E|exact IH].
+Qed.
+
+(* assignment through _header_key is "set this header, whatever its spelling" *)
+Lemma dict_set_header_key h name v : dict_set (header_key h name) v h = put_ci name v h.
+Proof.
+  induction h as [|[k v'] t IH]; cbn [header_key dict_set put_ci].
+  - now rewrite bytes_eqb_refl.
+  - destruct (bytes_eqb (lower k) (lower name)) eqn:E.
+    + cbn [dict_set]. now rewrite bytes_eqb_refl.
+    + cbn [dict_set].
+      destruct (bytes_eqb (header_key t name) k) eqn:E2.
+      * apply bytes_eqb_eq in E2. rewrite <- E2, lower_header_key, bytes_eqb_refl in E. discriminate.
+      * now rewrite IH.
+Qed.
+
+Lemma has_key_ci_lkeys ln h : has_key_ci ln h = true <-> In ln (lkeys h).
+Proof.
+  unfold has_key_ci, lkeys. rewrite existsb_exists, in_map_iff. split.
+  - intros (kv & Hi & E). apply bytes_eqb_eq in E. exists kv. now split.
+  - intros (kv & E & Hi). exists kv. split; [exact Hi|]. rewrite E. apply bytes_eqb_refl.
+Qed.
+
+Lemma has_key_ci_false ln h : has_key_ci ln h = false <-> ~ In ln (lkeys h).
+Proof.
+  rewrite <- has_key_ci_lkeys. destruct (has_key_ci ln h); split; congruence.
+Qed.
+
+Lemma put_ci_new name v h : ~ In (lower name) (lkeys h) -> put_ci name v h = h ++ [(name, v)].
+Proof.
+  induction h as [|[k v'] t IH]; cbn [put_ci lkeys map fst In app]; intros H; [reflexivity|].
+  destruct (bytes_eqb (lower k) (lower name)) eqn:E.
+  - apply bytes_eqb_eq in E. exfalso. apply H. now left.
+  - rewrite IH; [reflexivity|]. intros C. apply H. now right.
+Qed.
+
+Lemma dict_set_new_ci name v h : ~ In (lower name) (lkeys h) -> dict_set name v h = h ++ [(name, v)].
+Proof.
+  intros H. apply dict_set_new. unfold dict_keys. intros C. apply H. unfold lkeys.
+  apply in_map_iff in C as (kv & E & Hi). apply in_map_iff. exists kv. split; [now rewrite E|exact Hi].
+Qed.
+
+Lemma lkeys_put_ci name v h :
+  lkeys (put_ci name v h) = if has_key_ci (lower name) h then lkeys h else lkeys h ++ [lower name].
+Proof.
+  induction h as [|[k v'] t IH]; cbn [put_ci lkeys map fst has_key_ci existsb]; [reflexivity|].
+  destruct (bytes_eqb (lower k) (lower name)) eqn:E; cbn [orb map fst]; [reflexivity|].
+  fold (lkeys (put_ci name v t)). rewrite IH. fold (has_key_ci (lower name) t).
+  destruct (has_key_ci (lower name) t); reflexivity.
+Qed.
+
+Lemma bytes_eqb_spec x y : reflect (x = y) (bytes_eqb x y).
+Proof.
+  destruct (bytes_eqb x y) eqn:E; constructor.
+  - now apply bytes_eqb_eq.
+  - intros C. apply bytes_eqb_eq in C. congruence.
+Qed.
+
+Lemma get_ci_cons ln k v t :
+  get_ci ln ((k, v) :: t) = if bytes_eqb (lower k) ln then Some v else get_ci ln t.
+Proof. unfold get_ci. cbn [find fst]. destruct (bytes_eqb (lower k) ln); reflexivity. Qed.
+
+Lemma get_ci_put_ci ln name v h :
+  get_ci ln (put_ci name v h) = if bytes_eqb ln (lower name) then Some v else get_ci ln h.
+Proof.
+  induction h as [|[k v'] t IH]; cbn [put_ci].
+  - rewrite get_ci_cons. destruct (bytes_eqb_spec (lower name) ln), (bytes_eqb_spec ln (lower name));
+      try reflexivity; congruence.
+  - destruct (bytes_eqb_spec (lower k) (lower name)) as [E|E]; rewrite !get_ci_cons.
+    + rewrite E. destruct (bytes_eqb_spec (lower name) ln), (bytes_eqb_spec ln (lower name));
+        try reflexivity; congruence.
+    + rewrite IH. destruct (bytes_eqb_spec (lower k) ln), (bytes_eqb_spec ln (lower name));
+        try reflexivity; congruence.
+Qed.
+
+Lemma get_ci_none ln h : get_ci ln h = None <-> ~ In ln (lkeys h).
+Proof.
+  induction h as [|[k v] t IH]; [cbn; tauto|]. rewrite get_ci_cons. cbn [lkeys map fst In].
+  destruct (bytes_eqb_spec (lower k) ln) as [E|E].
+  - split; [discriminate|]. intros H. exfalso. apply H. now left.
+  - rewrite IH. unfold lkeys. tauto.
+Qed.
+
+Lemma get_ci_some_in ln h v : get_ci ln h = Some v -> In ln (lkeys h).
+Proof.
+  intros H. destruct (in_dec (list_eq_dec N.eq_dec) ln (lkeys h)) as [Hi|Hn]; [exact Hi|].
+  apply get_ci_none in Hn. congruence.
+Qed.
+
+(* nodup_ci is NoDup of the lower-cased names *)
+Lemma nodup_ci_NoDup (h : bdict) : nodup_ci (map fst h) = true <-> NoDup (lkeys h).
+Proof.
+  induction h as [|[k v] t IH]; cbn [map fst nodup_ci lkeys]; [split; [constructor|reflexivity]|].
+  fold (lkeys t). rewrite andb_true_iff, negb_true_iff, IH. split.
+  - intros [H1 H2]. constructor; [|exact H2]. intros C. unfold lkeys in C.
+    apply in_map_iff in C as ([k2 v2] & E & Hi). cbn [fst] in E.
+    assert (X : existsb (fun k0 => bytes_eqb (lower k0) (lower k)) (map fst t) = true).
+    { apply existsb_exists. exists k2. split; [apply in_map_iff; exists (k2, v2); now split|].
+      rewrite E. apply bytes_eqb_refl. }
+    congruence.
+  - intros H. inversion H as [|? ? Hn Hd]; subst. split; [|assumption].
+    destruct (existsb _ (map fst t)) eqn:X; [|reflexivity]. exfalso.
+    apply existsb_exists in X as (k2 & Hi & E). apply bytes_eqb_eq in E.
+    apply in_map_iff in Hi as ([k3 v3] & E2 & Hi). cbn [fst] in E2. subst k3.
+    apply Hn. unfold lkeys. apply in_map_iff. exists (k2, v3). now split.
+Qed.
+
+(* a header map the parser reads back as it is *)
+Definition wfh (h : bdict) : Prop := forallb ok_header h = true /\ NoDup (lkeys h).
+
+Lemma wfh_put_ci name v h : wfh h -> ok_name name = true -> ok_value v = true -> wfh (put_ci name v h).
+Proof.
+  intros [H1 H2] Hn Hv. split.
+  - clear H2. induction h as [|[k v0] t IH]; cbn [put_ci forallb].
+    + unfold ok_header. cbn [fst snd]. now rewrite Hn, Hv.
+    + cbn [forallb] in H1. apply andb_true_iff in H1 as [Hk Ht].
+      destruct (bytes_eqb (lower k) (lower name)); cbn [forallb].
+      * rewrite Ht, andb_true_r. unfold ok_header in *. cbn [fst snd] in *.
+        apply andb_true_iff in Hk as [Hk _]. now rewrite Hk, Hv.
+      * now rewrite Hk, IH.
+  - rewrite lkeys_put_ci. destruct (has_key_ci (lower name) h) eqn:E; [exact H2|].
+    apply NoDup_snoc; [exact H2|]. now apply has_key_ci_false.
+Qed.
+
+(* splitting a header map at its only header of a given name *)
+Lemma split_at_ci ln h v : NoDup (lkeys h) -> get_ci ln h = Some v ->
+  exists h1 hn h2, h = h1 ++ (hn, v) :: h2 /\ lower hn = ln /\ ~ In ln (lkeys h1) /\ ~ In ln (lkeys h2).
+Proof.
+  induction h as [|[k v0] t IH]; intros Hnd Hg; [discriminate|].
+  rewrite get_ci_cons in Hg. cbn [lkeys map fst] in Hnd. fold (lkeys t) in Hnd.
+  inversion Hnd as [|? ? Hn Hd]; subst.
+  destruct (bytes_eqb_spec (lower k) ln) as [E|E].
+  - inversion Hg; subst. exists [], k, t. repeat split; [intros []|assumption].
+  - destruct (IH Hd Hg) as (h1 & hn & h2 & -> & E1 & N1 & N2).
+    exists ((k, v0) :: h1), hn, h2. repeat split; try assumption.
+    cbn [lkeys map fst In]. fold (lkeys h1). tauto.
+Qed.
